@@ -353,6 +353,19 @@ func c19MPProp(c c19MP) hx.Verdict {
 	var n *corebgp.Notification
 	if !errors.As(err, &taw) && !errors.As(err, &n) {
 		v.Dev = hx.Devf("mp-flags-wrong-class", "flag conflict reported as %v", err)
+		return v
+	}
+	// the error is about this attribute: MP_REACH_NLRI is 14, MP_UNREACH_NLRI 15 (RFC 7606 3.c:
+	// the Attribute Flags Error names the attribute whose flags conflict)
+	wantCode := uint8(14)
+	if c.Unreach {
+		wantCode = 15
+	}
+	if errors.As(err, &taw) {
+		if taw.Code != wantCode {
+			v.Dev = hx.Devf("mp-flags-wrong-attribute", "flag conflict on attribute %d reported as treat-as-withdraw for attribute code %d", wantCode, taw.Code)
+			return v
+		}
 	}
 	return v
 }
